@@ -34,9 +34,12 @@ func convert2API(a *ast.AST, importSet map[string]lang.PlaceholderType, is *impo
 	api.importManager = is
 	api.importSet = importSet
 	api.Filename = a.Filename
-	one := a.Stmts[0]
-	syntax, ok := one.(*ast.SyntaxStmt)
-	if !ok {
+	// a source without statements (blank, comments only) gets the default syntax as well
+	var syntax *ast.SyntaxStmt
+	if len(a.Stmts) > 0 {
+		syntax, _ = a.Stmts[0].(*ast.SyntaxStmt)
+	}
+	if syntax == nil {
 		syntax = &ast.SyntaxStmt{
 			Syntax: ast.NewTokenNode(
 				token.Token{
